@@ -728,6 +728,19 @@ def gen_big(rng):
         else: ops.append({'op': 'proj', 'dst': 1, 'r': 0, 'names': rng.sample(names, rng.randrange(1, len(names) + 1))})
     return {'ops': ops, 'kind': 'big'}
 
+def gen_keycol(rng):
+    """a column literally named 'key' read by derived-column functions, d[callable] and do(): d(k=f) injects key=<k> as a DEFAULT only"""
+    n = rng.choice([1, 2, 3, 4]); other = rng.choice(['a', 'b', 'v'])
+    ops = [{'op': 'new_cols', 'dst': 0, 'kvs': [['key', {'L': [rcell(rng) for _ in range(n)]}], [other, {'L': [rcell(rng) for _ in range(n)]}]], 'form': rng.choice(['kw', 'dict'])}]
+    for _ in range(rng.choice([2, 3, 4])):
+        f = rng.choice([['ident', 'key'], ['isnone', 'key'], ['coalesce', 'key', other], ['coalesce', other, 'key'], ['eq', 'key', other]])
+        k = rng.choice(['call', 'call', 'call', 'apply', 'do', 'delkey'])
+        if k == 'call': ops.append({'op': 'call', 'dst': rng.choice([1, 2]), 'r': 0, 'key': rng.choice(['label', 'z', other, 'key']), 'arg': {'f': f}})
+        elif k == 'apply': ops.append({'op': 'apply', 'r': rng.choice([0, 1]), 'f': f})
+        elif k == 'do': ops.append({'op': 'do', 'dst': rng.choice([1, 2]), 'r': 0, 'fs': [[rng.choice(['eq', 'coalesce']), 'key']], 'ks': rng.choice([['key', other], [other], [other, 'key']]), 'fform': 'single'})
+        else: ops.append({'op': 'relabel', 'dst': 0, 'r': 0, 'sp': ['map', [['key', other], [other, 'key']]]})
+    return {'ops': ops, 'kind': 'keycol'}
+
 def gen_history(rng, length, malformed):
     """the generator follows the list-of-records reference to produce mostly meaningful ops"""
     global FRESH
@@ -842,6 +855,7 @@ def gen_cases(rng, tier):
         length = rng.choice([1, 2, 3, 4, 5, 6, 7, 8, 9, 10, 11, 12])
         c = gen_history(rng, length, malformed=(i % 4 == 3)); c['kind'] = 'malformed' if i % 4 == 3 else 'history'
         cases.append(c)
+    cases += [gen_keycol(rng) for _ in range(60 if tier == 'quick' else 1500)]
     big = [gen_big(rng) for _ in range(12 if tier == 'quick' else 300)]
     step_ = max(1, len(cases) // (len(big) + 1))            # spread over the cases files: they are the slow ones inside Coq
     for j, b in enumerate(big): cases.insert(min(len(cases), (j + 1) * step_ + j), b)
@@ -863,7 +877,7 @@ def nontrivial(case, result):
 
 def shape(case):
     k = case.get('kind', 'corpus')
-    return k if k in ('small', 'big') else '%s:len%d' % (k, len(case['ops']))
+    return k if k in ('small', 'big', 'keycol') else '%s:len%d' % (k, len(case['ops']))
 
 def shrink(case):
     ops = case['ops']
